@@ -1,5 +1,6 @@
 import NA.Proofs.C18Cisco
 import NA.Proofs.C18Via
+import NA.Proofs.C18Match
 /-!
 # C18, round 3 — the general model of cisco `MergeSpoc` (`NA/Model/MergeCisco.lean`)
 
@@ -517,11 +518,127 @@ example : (cryptoStep (mergeCmds [] true 2) [] true [("ipsec-isakmp", "")]
 -- unsupported prefix
 example : ("webvpn", "") ∈ Tbl.keys [("webvpn", [("", [{ parsed := "webvpn", anchor := true }])])] := by decide
 
+/-! ## `matchCryptoMap` (final deepening, item 2)
+
+`matchCalls al bl` is the list of callback calls `f(aSeqL, bSeqL)` of `matchCryptoMap(a, b, f)`, in order:
+first one call per entry of the device-side map `al` (`matchLoop`), then one call per entry of `bl` that
+found no partner.  `Call.aIdx` = positions of the entry's commands in `al`, `Call.bl` = the commands of
+`b`'s entry, `Call.bSeq` (ghost) = the sequence number that entry had in its file.  The same function is
+the one `cryptoStepG` runs and `cisco3` ties to the real `MergeSpoc`.  The statements agree with b-vpn's
+`NA.Vpn.crypto_*` (diff side): ascending order of sequence numbers, a partner is found by equal peer and is
+consumed once, and a fresh number is the first FREE number counting up from 1 (static peer) or down from
+65535 (dynamic) — NOT "above the maximum". -/
+
+/-- **Device entries: each once, order kept.**  The first calls are the entries of `al` in ascending order
+of their sequence numbers, each number once; a position of `al` is in the call of its own number and only
+there, and inside a call the positions ascend (the order of the entry's commands is kept); all later calls
+carry no device command. -/
+theorem g_crypto_device_entries_once (al bl : List Cmd) :
+    (∃ fresh, matchCalls al bl = (matchLoop al bl).1 ++ fresh ∧
+       fresh.map (·.bSeq) = (matchLoop al bl).2.map some ∧ ∀ c ∈ fresh, FreshCall al bl c) ∧
+    (matchLoop al bl).1.map (·.aIdx) = (seqsOf al).map (fun s => idxFrom s 0 al) ∧
+    (seqsOf al).Pairwise (· < ·) ∧ (∀ s, s ∈ seqsOf al ↔ ∃ c ∈ al, c.seq = s) ∧
+    (∀ s i, i ∈ idxFrom s 0 al ↔ ∃ c, al[i]? = some c ∧ c.seq = s) ∧
+    ∀ s, (idxFrom s 0 al).Pairwise (· < ·) := by
+  refine ⟨?_, ?_, seqsOf_sorted al, mem_seqsOf al, fun s i => by simpa using mem_idxFrom s al 0 i,
+    fun s => idxFrom_sorted s al 0⟩
+  · obtain ⟨cs, h1, h2, h3⟩ := freshFold_shape al bl (matchLoop al bl).2 ((matchLoop al bl).1, 1, 65535)
+    exact ⟨cs, h1, h2, h3⟩
+  · have := matchFold_aIdx al bl (firstSeqs bl) (seqsOf al) ([], seqsOf bl)
+    simpa [matchLoop] using this
+
+/-- **Entries of `b`: each handed over exactly once.**  The sequence numbers of the entries of `b` that
+occur in the calls are, up to order, the sequence numbers of `b`, each once; a call of the first loop with
+a partner carries that whole entry of `b`, one without partner carries nothing. -/
+theorem g_crypto_target_entries_once (al bl : List Cmd) :
+    ((matchCalls al bl).filterMap (·.bSeq)).Perm (seqsOf bl) ∧
+    ∀ c ∈ (matchLoop al bl).1, (c.bSeq = none ∧ c.bl = []) ∨ ∃ q, c.bSeq = some q ∧ c.bl = grp bl q := by
+  have inv := matchLoop_inv al bl
+  refine ⟨?_, inv.grpOk⟩
+  obtain ⟨cs, h1, h2, _⟩ := freshFold_shape al bl (matchLoop al bl).2 ((matchLoop al bl).1, 1, 65535)
+  have hfm : cs.filterMap (·.bSeq) = (matchLoop al bl).2 := by
+    have : cs.filterMap (·.bSeq) = (cs.map (·.bSeq)).filterMap id := by
+      rw [List.filterMap_map]; rfl
+    rw [this, h2, List.filterMap_map]; simp
+  have hrest : (matchLoop al bl).2.Nodup := inv.sub.nodup (seqsOf_nodup bl)
+  unfold matchCalls
+  rw [h1, List.filterMap_append, hfm]
+  refine (List.perm_ext_iff_of_nodup ?_ (seqsOf_nodup bl)).mpr (fun q => ?_)
+  · rw [List.nodup_append]
+    exact ⟨inv.nodup, hrest, fun a ha b hb hab => ((inv.used a).mp ha).2 (hab ▸ hb)⟩
+  · rw [List.mem_append, inv.used]
+    constructor
+    · rintro (h | h)
+      · exact h.1
+      · exact inv.sub.subset h
+    · intro h
+      by_cases hq : q ∈ (matchLoop al bl).2
+      · exact Or.inr hq
+      · exact Or.inl ⟨h, hq⟩
+
+/-- **Matched by peer.**  Every call of the first loop belongs to one entry `s` of the device map; if it has
+a partner `q`, that is an entry of `b` whose peer is the peer of `s`. -/
+theorem g_crypto_match_by_peer (al bl : List Cmd) (c : Call) (hc : c ∈ (matchLoop al bl).1) :
+    ∃ s ∈ seqsOf al, c.aIdx = idxFrom s 0 al ∧
+      ∀ q, c.bSeq = some q → q ∈ seqsOf bl ∧ peerD (grp bl q) = peerD (grp al s) :=
+  matchLoop_peer al bl c hc
+
+/-- **Fresh numbers.**  An entry of `b` without partner is handed over with no device command, with all its
+commands, under the name of the device's map and under ONE number produced by `freeSeq`: the first number
+not used on the device counting up (static) or down (dynamic) — free unless all 70000 candidates are used. -/
+theorem g_crypto_fresh_numbers (al bl : List Cmd) (c : Call) (hc : FreshCall al bl c) :
+    c.aIdx = [] ∧ (∃ s, c.bSeq = some s ∧ c.bl.length = (grp bl s).length) ∧
+    (∀ a0, al.head? = some a0 → ∀ d ∈ c.bl, d.name = a0.name) ∧
+    ∃ st start, (∀ d ∈ c.bl, d.seq = freeSeq (seqsOf al) st 70000 start) ∧
+      (freeSeq (seqsOf al) st 70000 start ∉ seqsOf al ∨
+        ∀ k, k < 70000 → (if st then start + k else start - k) ∈ seqsOf al) := by
+  obtain ⟨h1, s, h2, h3, ⟨st, start, h4⟩, h5⟩ := hc
+  refine ⟨h1, ⟨s, h2, h3⟩, h5, st, start, h4, ?_⟩
+  cases st with
+  | true => simpa using freeSeq_free_up (seqsOf al) 70000 start
+  | false => simpa using freeSeq_free_down (seqsOf al) 70000 start
+
+def exCM (seq : Nat) (t : String) : Cmd :=
+  { typPrefix := "crypto map", parsed := "crypto map $NAME $SEQ " ++ t, name := "M", seq := seq }
+def exCR (seq : Nat) (t : String) : Cmd := { exCM seq t with name := "R" }
+/-- device: entries 20 (peer B) and 10 (peer A), given in descending order; raw: 1 (peer A), 2 (peer C), 3 (peer A) -/
+def exAl : List Cmd := [exCM 20 "set peer 2.2.2.2", exCM 20 "match address X", exCM 10 "set peer 1.1.1.1"]
+def exBl : List Cmd := [exCR 1 "set peer 1.1.1.1", exCR 2 "set peer 3.3.3.3", exCR 3 "set peer 1.1.1.1", exCR 3 "set pfs group2"]
+/-- non-vacuity: ascending device order, entry 10 gets raw entry 1, raw 2 and 3 get the fresh numbers 1 and 2 -/
+example : (matchCalls exAl exBl).map (fun c => (c.aIdx, c.bSeq, c.bl.map (fun d => (d.name, d.seq)))) =
+    [([2], some 1, [("R", 1)]), ([0, 1], none, []),
+     ([], some 2, [("M", 1)]), ([], some 3, [("M", 2), ("M", 2)])] := by decide
+example : (firstPeerErr exAl exBl).isNone = true := by decide
+/-- a device that uses 1 and 2: the fresh number is 3 (first free, not "max + 1" = 11 would also be free) -/
+example : (matchCalls [exCM 1 "set peer 1.1.1.1", exCM 2 "set peer 2.2.2.2", exCM 10 "set peer 4.4.4.4"]
+    [exCR 5 "set peer 3.3.3.3"]).map (fun c => (c.aIdx, c.bl.map (·.seq))) =
+    [([0], []), ([1], []), ([2], []), ([], [3])] := by decide
+
+/-- The real function either aborts with the first entry that has no peer (`b`'s entries first, ascending),
+or makes exactly the calls `matchCalls`. -/
+theorem g_crypto_calls (al bl : List Cmd) :
+    (∀ cs, matchCryptoMap al bl = .ok cs → cs = matchCalls al bl ∧ firstPeerErr al bl = none) ∧
+    (∀ e, matchCryptoMap al bl = .error e → firstPeerErr al bl = some e) := by
+  unfold matchCryptoMap
+  cases h : firstPeerErr al bl with
+  | none =>
+    refine ⟨fun cs hcs => ?_, fun e he => ?_⟩
+    · simp only [Except.ok.injEq] at hcs; exact ⟨hcs.symm, rfl⟩
+    · simp at he
+  | some e0 =>
+    refine ⟨fun cs hcs => ?_, fun e he => ?_⟩
+    · simp at hcs
+    · simp only [Except.error.injEq] at he; rw [he]
+
+/-- non-vacuity: an entry of `b` without peer stops the merge -/
+example : (firstPeerErr exAl [exCR 1 "match address Y"]).isSome = true := by decide
+
 def obligations : List Lean.Name := [
   ``g_no_object_merged_twice, ``g_second_reference_is_error, ``g_name_clash_is_error,
   ``g_simple_name_clash_is_error, ``g_unsupported_prefix_reported, ``g_unused_object_warned,
   ``mergeCmds_ext, ``g_final_table_holds_last_write, ``g_written_once_is_final, ``g_store_events_kept,
   ``g_store_event_asa_acl, ``g_store_event_ios_acl, ``g_store_event_generic, ``g_store_event_crypto, ``g_no_object_name_lost, ``g_generic_commands, ``g_generic_nothing_dropped, ``g_subcommands, ``g_crypto_common,
-  ``g_dynmap_commands, ``g_crypto_entry_subcommands, ``g_old_crypto_subcommand_dropped_counterexample, ``g_asa_acl_law, ``g_ios_acl_law, ``g_placed_consequences]
+  ``g_dynmap_commands, ``g_crypto_entry_subcommands, ``g_old_crypto_subcommand_dropped_counterexample, ``g_asa_acl_law, ``g_ios_acl_law, ``g_placed_consequences,
+  ``g_crypto_device_entries_once, ``g_crypto_target_entries_once, ``g_crypto_match_by_peer, ``g_crypto_fresh_numbers, ``g_crypto_calls]
 
 end NA.C18.G
